@@ -15,6 +15,9 @@ def _scratch_file(rng):
     import tempfile
     if _POOL_DIR[0] is None or not os.path.isdir(_POOL_DIR[0]):
         _POOL_DIR[0] = tempfile.mkdtemp(prefix='mc_native_')
+        import atexit
+        import shutil
+        atexit.register(shutil.rmtree, _POOL_DIR[0], True)
     return os.path.join(_POOL_DIR[0], f'cache_{rng.randrange(16)}.h5')
 
 
